@@ -90,6 +90,9 @@ MARKUP["trigger"] = [
     "\n{|\n|a\n|" + ("\n\n" + "dolor sit amet " * 30) * 8 + "\n|-\n|c||d\n|}",
     "\n{|\n|a\n|" + ("<br/>" + "dolor sit amet " * 30 + "<br/>\n\n") * 8 + "\n|-\n|c||d\n|}",
     "\n{|\n|<br/>" + ("lorem ipsum " * 40 + "\n\n<br/>") * 7 + "\n|b<br/>\n|}",
+    # more nesting offenders under one inline parent than a bounded number of repair rounds would fix
+    ":<gallery>\nFile:a.png\n</gallery>\n" * 5, " x [[File:a.png]]\n\n y [[File:b.png]]\n\n z [[File:c.png]]\n\n w [[File:d.png]]\n\n v [[File:e.png]]\n",
+    "<code>\n p1\n</code><code>\n p2\n</code><code>\n p3\n</code><code>\n p4\n</code><code>\n p5\n</code>", ":{|\n|a\n|}\n" * 5,
     # tables inside an image caption (the caption is inline content: rows and cells end up outside a table)
     "[[File:a.png|thumb|legend\n{|\n|-\n| k || v\n|}\n]]\n", "[[File:b.png|thumb|<table><tr><td>k</td><td>v</td></tr></table>]]\n",
     "[[File:c.png|thumb|<center><table><tr><td>k</td><td>v</td></tr></table></center>]]\n",
